@@ -42,12 +42,18 @@ def exec_c11(scn) -> list[dict]:
     from reamber.algorithms.timing.utils.reseat_bpm_changes_snap import reseat_bpm_changes_snap
     recs = []
     t0 = scn.get("t0", 0)
-    for via in scn.get("vias", ["fn", "tm", "tm.reseat"]):
+    for via in scn.get("vias", ["fn", "tm", "tm.reseat", "fn_twice"]):
         r = {"id": f"{scn['id']}/{via}", "op": "reseat", "via": via, "cls": scn.get("cls", "grid2"), "G": scn["G"],
              "tl": scn["tl"], "out": [], "ot": [], "exc": ""}
         try:
             if via == "fn":
                 r["out"] = _proj_snaps(reseat_bpm_changes_snap(_mk(scn)))
+            elif via == "fn_twice":
+                # history: the same list object is reseated twice (the first call must not have touched it)
+                lst = _mk(scn)
+                reseat_bpm_changes_snap(lst)
+                r["out"] = _proj_snaps(reseat_bpm_changes_snap(lst))
+                r["via"] = "fn"
             else:
                 if via == "tm":
                     tm = TimingMap.from_bpm_changes_snap(ms(t0), _mk(scn), reseat=True)
@@ -108,5 +114,5 @@ def grid1000_scenarios(n):
                 tot = b + adv
                 m, b = m + tot // (met * G), tot % (met * G)
             tl.append({"m": m, "b": b, "bl": bl, "met": met})
-        out.append({"id": f"g1000_{i}", "cls": "grid1000", "G": G, "tl": tl, "t0": 0, "vias": ["fn"]})
+        out.append({"id": f"g1000_{i}", "cls": "grid1000", "G": G, "tl": tl, "t0": 0, "vias": ["fn", "fn_twice"]})
     return out
